@@ -371,6 +371,10 @@ def dotted_paths(rng, tree, n):
                 node = 'lost'
             if node == 'lost' and rng.random() < 0.6:
                 break
+        if node not in (None, 'lost') and node['kind'] == 'dir' and rng.random() < 0.5:
+            files_here = [k['name'] for k in node['children'].values() if k['kind'] == 'file']
+            if files_here:
+                parts.append(rng.choice(files_here))         # end at a file of the directory reached
         if not any('~' in q for q in parts):
             out.append(parts)
     return out
@@ -422,6 +426,13 @@ def probe_resolution(pair, sig, n=10):
             ctx.violation(f'{sig}/resolve-refinement', f"'/{'/'.join(parts)}': record walk {mres} stands for {show_node(o[1][0]) if o[1] else None}, "
                           f'tree walk gives {sres[0]} {show_node(sres[1][0]) if sres[0] == "ok" and sres[1] else sres[1]}', dict(pair.replay(), path=parts))
             return False
+        if mres[0] == 'ok' and mres[1] != 0:
+            nres = lib.Runner.unres(o[3])
+            ctx.stat('vol-resolve-normal-form-evaluated')
+            if nres[0] != 'ok' or nres[1] != o[1]:
+                ctx.violation(f'{sig}/resolve-normal-form', f"'/{'/'.join(parts)}' reaches {show_node(o[1][0])}, its dot-free normal form reaches "
+                              f'{nres[0]} {show_node(nres[1][0]) if nres[0] == "ok" and nres[1] else nres[1]}', dict(pair.replay(), path=parts))
+                return False
     return True
 
 
